@@ -42,7 +42,7 @@ def confirm(sid):
         if rc != 0:
             res["apply_error"] = out[-500:]
             return res
-        rc, out = sh(f"{PY} -m pytest -q -p no:cacheprovider --timeout=900 2>&1 | tail -5", cwd=wt, timeout=5400)
+        rc, out = sh(f"{PY} -m pytest -q -p no:cacheprovider --timeout=900 -rf 2>&1 | tail -25", cwd=wt, timeout=5400)
         res["suite_tail"] = out.strip().splitlines()[-3:]
         m = re.search(r"(\d+) failed", out)
         failed = int(m.group(1)) if m else 0
